@@ -21,7 +21,10 @@ pub struct Violation {
 
 impl Violation {
     pub fn new(class: impl Into<String>, detail: impl Into<String>) -> Self {
-        Violation { class: class.into(), detail: detail.into() }
+        // details may quote text read from freed (poisoned) memory: keep them valid UTF-8
+        let d: String = detail.into();
+        let d = String::from_utf8_lossy(d.as_bytes()).into_owned();
+        Violation { class: class.into(), detail: d }
     }
 }
 
